@@ -29,9 +29,23 @@ def run(ctx):
     rng = ctx.rng
     reqs, expect = [], []
     for k in range(ctx.budget(30, 500)):
-        net = netgen.random_net(rng, dcline=False, slack_gen=rng.random() < 0.2, n_ext=rng.choice([1, 2]))
-        dc = rng.random() < 0.25
-        opts = dict(trafo_model=rng.choice(["t", "pi"]), calculate_voltage_angles=rng.random() < 0.8, numba=rng.random() < 0.5)
+        variant = rng.choice(["full", "full", "full", "single-slack-resistive", "gen-at-slack"])
+        if variant == "single-slack-resistive":
+            # one ext_grid, no gens / xwards, purely conductive bus admittances: the fast single-slack result routine applies
+            net = netgen.random_net(rng, kinds=("line", "trafo", "load", "sgen", "switch"), dcline=False, n_ext=1, allow_oos=False)
+            b = int(rng.choice(list(net.load.bus)))
+            if rng.random() < 0.5:
+                pp.create_shunt(net, b, q_mvar=0., p_mw=rng.choice([0.2, 0.41]))
+            else:
+                pp.create_ward(net, b, ps_mw=0.1, qs_mvar=0.05, pz_mw=rng.choice([0.31, 0.15]), qz_mvar=0.)
+        else:
+            net = netgen.random_net(rng, dcline=False, slack_gen=rng.random() < 0.2, n_ext=rng.choice([1, 2]))
+            if variant == "gen-at-slack":
+                pp.create_gen(net, int(net.ext_grid.bus.iloc[0]), p_mw=rng.choice([5., 20.]), vm_pu=float(net.ext_grid.vm_pu.iloc[0]))
+        ctx.hist("variant", variant)
+        dc = rng.random() < (0.25 if variant != "gen-at-slack" else 0.6)
+        opts = dict(trafo_model=rng.choice(["t", "pi"]), calculate_voltage_angles=rng.random() < 0.8,
+                    numba=(rng.random() < 0.5 or variant == "single-slack-resistive"))
         if not dc:
             opts["voltage_depend_loads"] = False          # (the default is True; the ZIP findings are C01's)
         case = {"options": opts, "dc": dc, "net_json": pp.to_json(net)}
